@@ -121,6 +121,25 @@ impl GenerationPass for AvailableValuePass {
         // the values with the correct previous nodes are calculated.
         #[allow(clippy::mutable_key_type)]
         let mut visited = HashSet::new();
+        // `ValueInCsr(c)` stands for what the CSR `c` holds when the function
+        // (or the program) is entered. A CSR still holds it as long as the
+        // memory map says so: every entry starts with that fact for each CSR
+        // the program mentions, a write replaces it, a join of different
+        // histories loses it.
+        let csrs_at_entry = {
+            let mut map = AvailableValueMap::new();
+            for node in cfg.iter() {
+                let csr = match node.node() {
+                    ParserNode::Csr(expr) => Some(expr.csr.get_cloned()),
+                    ParserNode::CsrI(expr) => Some(expr.csr.get_cloned()),
+                    _ => None,
+                };
+                if let Some(csr) = csr {
+                    map.insert(MemoryLocation::CsrRegister(csr), AvailableValue::ValueInCsr(csr));
+                }
+            }
+            map
+        };
         // A node all of whose predecessors come later in the program waits until
         // one of them has been visited: nothing is known about any way into it
         // yet, which is not the same as knowing nothing. Only code that no
@@ -231,7 +250,7 @@ impl GenerationPass for AvailableValuePass {
                 // out_memory[n] = (gen_memory[n] if we know the location of the stack pointer) U in_memory[n]
                 // (There is no kill_stacks[n])
                 let mut out_memory_n = if node.is_any_entry() {
-                    AvailableValueMap::new()
+                    csrs_at_entry.clone()
                 } else {
                     let mut map = node.memory_values_in();
                     if let Some((MemoryLocation::StackOffset(offset), value)) =
@@ -272,13 +291,13 @@ impl GenerationPass for AvailableValuePass {
                         map.insert(memory, value);
                     }
                     if let Some((csr, content_unknown)) = written_csr(&node.node()) {
-                        // The words behind the old content of the CSR are not
-                        // the words behind the new one; after a set or clear the
-                        // content itself is not known any more
-                        map = retain_values(map, |location, value| match location {
-                            MemoryLocation::CsrRegisterValueOffset(c, _) => *c != csr,
+                        // After a set or clear the content of the CSR is not
+                        // known any more. (What other places know about the
+                        // content at entry, and about the words behind it, is
+                        // about that value, not about the register.)
+                        map = retain_values(map, |location, _| match location {
                             MemoryLocation::CsrRegister(c) => !(content_unknown && *c == csr),
-                            _ => !matches!(value, AvailableValue::ValueInCsr(c) if *c == csr),
+                            _ => true,
                         });
                     }
                     if node.calls_to().is_some() {
@@ -333,11 +352,11 @@ impl GenerationPass for AvailableValuePass {
                 if node.calls_to().is_some() {
                     redefined |= Register::return_addr_set();
                 }
-                let rewritten_csr = written_csr(&node.node()).map(|(csr, _)| csr);
-                let any_csr_may_change = node.calls_to().is_some();
+                // (a callee may write the words behind any pointer)
+                let memory_may_change = node.calls_to().is_some();
                 let still_valid = |value: &AvailableValue| {
                     !matches!(value, AvailableValue::RegisterWithScalar(reg, _) if redefined.contains(reg))
-                        && !matches!(value, AvailableValue::ValueInCsr(csr) | AvailableValue::MemoryAtCsr(csr, _) if Some(*csr) == rewritten_csr || any_csr_may_change)
+                        && !(memory_may_change && matches!(value, AvailableValue::MemoryAtCsr(..)))
                 };
                 // The zero register cannot be written: an instruction that names
                 // it as its destination leaves no value behind
@@ -562,8 +581,15 @@ fn rule_value_from_stack(
 ) {
     if let Some(reg) = node.writes_to() {
         if let Some(AvailableValue::ValueInCsr(csr)) = available_out.get(reg.get()) {
-            if let Some(csr_value) = memory_in.get(&MemoryLocation::CsrRegister(*csr)) {
-                available_out.insert(reg.get_cloned(), csr_value.clone());
+            // The register gets what the CSR holds now: what it held at entry
+            // only while that is still known to be there
+            match memory_in.get(&MemoryLocation::CsrRegister(*csr)) {
+                Some(csr_value) => {
+                    available_out.insert(reg.get_cloned(), csr_value.clone());
+                }
+                None => {
+                    *available_out -= [reg.get_cloned()].into_iter();
+                }
             }
         }
 
